@@ -318,9 +318,9 @@ theorem split_renderTag (ls : List TagLevel) (hne : ls ≠ []) (hw : ∀ l ∈ l
 
 -- PROPERTY THEOREMS
 
-/-- the generated segment tables have the shape the CIP specification gives them -/
+/-- the generated segment tables have the shape the CIP specification gives them (logical format 00 = 8-bit, 01 = 16-bit, 10 = 32-bit; 11 is reserved) -/
 theorem logical_tables_wf :
-    Gen.LOGICAL_SEGMENT_TYPE = 32 ∧ Gen.logicalFormat = [(1, 0), (2, 1), (4, 3)] ∧
+    Gen.LOGICAL_SEGMENT_TYPE = 32 ∧ Gen.logicalFormat = [(1, 0), (2, 1), (4, 2)] ∧
     (Gen.logicalTypes.all fun e => e.2 % 4 == 0 && e.2 < 32) = true ∧
     lookupName (nm "class_id") Gen.logicalTypes = some 0 ∧
     lookupName (nm "instance_id") Gen.logicalTypes = some 4 ∧
